@@ -19,13 +19,15 @@ structure Ev where
   m : Nat
 deriving Repr, DecidableEq
 
-/-- what happens to *one* key when an event for that key is processed: the entry and the "marked ambiguous" flag -/
+/-- what happens to *one* key when an event for that key is processed: the entry and the "marked ambiguous" flag.
+    A tie with the current entry sets the mark, a strictly better offer clears it. -/
 def keyStep (st : Option Entry × Bool) (ev : Ev) : Option Entry × Bool :=
   match st.1 with
   | none => (some (ev.ai, ev.e, ev.m), st.2)
   | some (_, _, om) =>
     if ev.m < om then st
-    else (some (ev.ai, ev.e, ev.m), st.2 || om == ev.m)
+    else if om == ev.m then (some (ev.ai, ev.e, ev.m), true)
+    else (some (ev.ai, ev.e, ev.m), false)
 
 /-- state of one key after the events `l` (all for that key), in order -/
 def keyState (l : List Ev) : Option Entry × Bool := l.foldl keyStep (none, false)
@@ -61,13 +63,15 @@ theorem inv_init {D : Type} (ops : DictOps D) (hl : ops.Lawful) : Inv ops [] ⟨
 theorem inv_lengths {D : Type} (ops : DictOps D) (evs : List Ev) (st : Build D) (ls : List Nat)
     (h : Inv ops evs st) : Inv ops evs { st with lengths := ls } := h
 
+theorem mem_filter_ne (l : List Bytes) (key s : Bytes) : s ∈ l.filter (· != key) ↔ s ∈ l ∧ s ≠ key := by
+  simp [List.mem_filter]
+
 theorem inv_addEntry {D : Type} (ops : DictOps D) (hl : ops.Lawful) (evs : List Ev) (st : Build D)
     (ai : Nat) (addLen : Bool) (it : Bytes × Nat × Nat) (h : Inv ops evs st) :
     Inv ops (evs ++ [⟨ai, it.1, it.2.1, it.2.2⟩]) (addEntry ops ai addLen st it) := by
   obtain ⟨key, e, m⟩ := it
   intro s
   obtain ⟨h1, h2, h3⟩ := h s
-  obtain ⟨k1, k2, k3⟩ := h key
   rw [forKey_append]
   by_cases hk : key = s
   · subst hk
@@ -91,8 +95,6 @@ theorem inv_addEntry {D : Type} (ops : DictOps D) (hl : ops.Lawful) (evs : List 
         by_cases htie : (om == m) = true
         · cases hamb : (ops.get? st.ambSet key).isNone with
           | true =>
-            have hambF : amb = false := by
-              rw [← h2]; cases hg : ops.get? st.ambSet key <;> simp_all
             simp only [htie, Bool.true_and, if_true]
             refine ⟨by simp [hl.get?_insert], ?_, ?_⟩
             · simp [hl.get?_insert]
@@ -100,21 +102,31 @@ theorem inv_addEntry {D : Type} (ops : DictOps D) (hl : ops.Lawful) (evs : List 
           | false =>
             have hambT : amb = true := by
               rw [← h2]; cases hg : ops.get? st.ambSet key <;> simp_all
-            simp only [htie, Bool.and_false, Bool.false_eq_true, if_false]
+            have hnlt : ¬ om < m := by
+              have : om = m := by simpa using htie
+              omega
+            simp only [htie, Bool.and_false, Bool.false_eq_true, if_false, hnlt]
             refine ⟨by simp [hl.get?_insert], ?_, ?_⟩
-            · rw [h2, hambT]; rfl
+            · rw [h2, hambT]; simp
             · rw [h3, hambT]; simp
         · have htie' : (om == m) = false := by simpa using htie
-          simp only [htie', Bool.false_and, Bool.false_eq_true, if_false, Bool.or_false]
-          exact ⟨by simp [hl.get?_insert], h2, h3⟩
+          have hgt : om < m := by
+            have : om ≠ m := by simpa using htie
+            omega
+          simp only [htie', Bool.false_and, Bool.false_eq_true, if_false, hgt, if_true]
+          refine ⟨by simp [hl.get?_insert], by simp [hl.get?_erase], ?_⟩
+          simp
   · have hs : forKey s [(⟨ai, key, e, m⟩ : Ev)] = [] := forKey_single_ne s ⟨ai, key, e, m⟩ hk
     rw [hs, List.append_nil]
     have hne : ∀ (d : D) (v : Entry), ops.get? (ops.insert d key v) s = ops.get? d s := by
       intro d v; rw [hl.get?_insert]; simp [hk]
+    have hne' : ∀ (d : D), ops.get? (ops.erase d key) s = ops.get? d s := by
+      intro d; rw [hl.get?_erase]; simp [hk]
+    have hsk : ¬ s = key := fun h => hk h.symm
     have hmem : ∀ l : List Bytes, s ∈ key :: l ↔ s ∈ l := by
-      intro l
-      have : ¬ s = key := fun h => hk h.symm
-      simp [this]
+      intro l; simp [hsk]
+    have hmemf : ∀ l : List Bytes, s ∈ l.filter (· != key) ↔ s ∈ l := by
+      intro l; rw [mem_filter_ne]; simp [hsk]
     simp only [addEntry]
     split
     · split
@@ -122,7 +134,10 @@ theorem inv_addEntry {D : Type} (ops : DictOps D) (hl : ops.Lawful) (evs : List 
       · split
         · refine ⟨by simp [hne, h1], by simp [hne, h2], ?_⟩
           simp only [hmem]; exact h3
-        · exact ⟨by simp [hne, h1], h2, h3⟩
+        · split
+          · refine ⟨by simp [hne, h1], by simp [hne', h2], ?_⟩
+            simp only [hmemf]; exact h3
+          · exact ⟨by simp [hne, h1], h2, h3⟩
     · exact ⟨by simp [hne, h1], h2, h3⟩
 
 theorem inv_foldl_items {D : Type} (ops : DictOps D) (hl : ops.Lawful) (ai : Nat) (addLen : Bool)
@@ -192,6 +207,26 @@ theorem makeIndex_get? {D : Type} (ops : DictOps D) (hl : ops.Lawful) (adapters 
 
 theorem keyState_nil : keyState [] = (none, false) := rfl
 
+/-- number of offers with exactly `m` matches -/
+def cntM (l : List Ev) (m : Nat) : Nat := (l.filter (fun ev => ev.m == m)).length
+
+theorem cntM_append (l l' : List Ev) (m : Nat) : cntM (l ++ l') m = cntM l m + cntM l' m := by
+  simp [cntM]
+
+theorem cntM_single (ev : Ev) (m : Nat) : cntM [ev] m = if ev.m = m then 1 else 0 := by
+  by_cases h : ev.m = m <;> simp [cntM, h]
+
+theorem cntM_zero_of_lt (l : List Ev) (m : Nat) (h : ∀ ev ∈ l, ev.m < m) : cntM l m = 0 := by
+  simp only [cntM, List.length_eq_zero_iff, List.filter_eq_nil_iff]
+  intro ev hev
+  have := h ev hev
+  simp; omega
+
+theorem cntM_pos_of_mem (l : List Ev) (ev : Ev) (h : ev ∈ l) : 1 ≤ cntM l ev.m := by
+  simp only [cntM]
+  have : ev ∈ l.filter (fun x => x.m == ev.m) := List.mem_filter.mpr ⟨h, by simp⟩
+  exact List.length_pos_of_mem this
+
 theorem keyState_none_iff (l : List Ev) : (keyState l).1 = none ↔ l = [] := by
   induction l using list_snoc_induction with
   | nil => simp [keyState]
@@ -204,7 +239,7 @@ theorem keyState_none_iff (l : List Ev) : (keyState l).1 = none ↔ l = [] := by
       · simp at h
       · split at h
         · rename_i h0 _; simp [h0] at h
-        · simp at h
+        · split at h <;> simp at h
     · intro h; simp at h
 
 /-- the entry is one of the offers seen … -/
@@ -215,14 +250,16 @@ theorem keyState_mem (l : List Ev) (ai e m : Nat) (h : (keyState l).1 = some (ai
   | append_singleton l ev ih =>
     rw [keyState_append_one] at h
     simp only [keyStep] at h
-    split at h
-    · simp only [Option.some.injEq, Prod.mk.injEq] at h
+    have new : some (ev.ai, ev.e, ev.m) = some (ai, e, m) → ∃ ev' ∈ l ++ [ev], ev'.ai = ai ∧ ev'.e = e ∧ ev'.m = m := by
+      intro h
+      simp only [Option.some.injEq, Prod.mk.injEq] at h
       exact ⟨ev, by simp, h.1, h.2.1, h.2.2⟩
+    split at h
+    · exact new h
     · split at h
       · obtain ⟨ev', hm, h'⟩ := ih h
         exact ⟨ev', by simp [hm], h'⟩
-      · simp only [Option.some.injEq, Prod.mk.injEq] at h
-        exact ⟨ev, by simp, h.1, h.2.1, h.2.2⟩
+      · split at h <;> exact new h
 
 /-- … and no offer seen had more matches -/
 theorem keyState_max (l : List Ev) (ai e m : Nat) (h : (keyState l).1 = some (ai, e, m)) :
@@ -251,75 +288,70 @@ theorem keyState_max (l : List Ev) (ai e m : Nat) (h : (keyState l).1 = some (ai
         · have := ih oa oe om h0 ev' hev'; omega
         · subst hev'; omega
       · rename_i hlt
-        simp only [Option.some.injEq, Prod.mk.injEq] at h
+        have hm : ev.m = m := by
+          split at h <;> (simp only [Option.some.injEq, Prod.mk.injEq] at h; exact h.2.2)
         rcases hev' with hev' | hev'
         · have := ih oa oe om h0 ev' hev'; omega
         · subst hev'; omega
 
-/-- the ambiguity mark is only ever added -/
-theorem keyState_amb_mono (l l' : List Ev) (h : (keyState l).2 = true) : (keyState (l ++ l')).2 = true := by
-  induction l' using list_snoc_induction with
-  | nil => simpa using h
-  | append_singleton l' ev ih =>
-    rw [← List.append_assoc, keyState_append_one]
-    simp only [keyStep]
-    split
-    · exact ih
-    · split
-      · exact ih
-      · simp [ih]
+theorem keyState_flag_of_none (l : List Ev) (h : (keyState l).1 = none) : (keyState l).2 = false := by
+  have := (keyState_none_iff l).mp h
+  subst this; rfl
 
-/-- a key is marked exactly when some offer tied with the entry that was current *at that time* -/
-theorem keyState_amb_iff (l : List Ev) :
-    (keyState l).2 = true ↔
-      ∃ pre ev post, l = pre ++ ev :: post ∧ ∃ oa oe, (keyState pre).1 = some (oa, oe, ev.m) := by
-  induction l using list_snoc_induction with
-  | nil => simp [keyState]
+/-- **the mark, declaratively**: a key is marked exactly when the largest number of matches among its offers was
+    offered at least twice (a strictly better offer clears the mark of a tie between worse ones) -/
+theorem keyState_amb_iff (l : List Ev) (ai e m : Nat) (h : (keyState l).1 = some (ai, e, m)) :
+    (keyState l).2 = true ↔ 2 ≤ cntM l m := by
+  induction l using list_snoc_induction generalizing ai e m with
+  | nil => simp [keyState] at h
   | append_singleton l ev ih =>
-    constructor
-    · intro h
-      rw [keyState_append_one] at h
-      simp only [keyStep] at h
-      have old : (keyState l).2 = true → ∃ pre ev' post, l ++ [ev] = pre ++ ev' :: post ∧ ∃ oa oe, (keyState pre).1 = some (oa, oe, ev'.m) := by
-        intro h'
-        obtain ⟨pre, ev', post, hl', hx⟩ := ih.mp h'
-        exact ⟨pre, ev', post ++ [ev], by simp [hl'], hx⟩
+    rw [keyState_append_one] at h ⊢
+    rw [cntM_append, cntM_single]
+    simp only [keyStep] at h ⊢
+    split at h
+    · rename_i h0
+      have hl : l = [] := (keyState_none_iff l).mp h0
+      simp only [Option.some.injEq, Prod.mk.injEq] at h
+      subst hl
+      simp [keyState, cntM, h.2.2]
+    · rename_i oa oe om h0
+      have ihm := ih oa oe om h0
+      have hmax := keyState_max l oa oe om h0
+      obtain ⟨ev0, hev0, _, _, hm0⟩ := keyState_mem l oa oe om h0
+      have hpos : 1 ≤ cntM l om := by rw [← hm0]; exact cntM_pos_of_mem l ev0 hev0
       split at h
-      · exact old h
-      · rename_i oa oe om h0
+      · rename_i hlt
+        rw [h0] at h
+        simp only [Option.some.injEq, Prod.mk.injEq] at h
+        obtain ⟨_, _, rfl⟩ := h
+        simp only [hlt, if_true]
+        have : ¬ ev.m = om := by omega
+        simp only [this, if_false, Nat.add_zero]
+        exact ihm
+      · rename_i hlt
+        simp only [hlt, if_false]
         split at h
-        · exact old h
-        · simp only [Bool.or_eq_true, beq_iff_eq] at h
-          rcases h with h | h
-          · exact old h
-          · exact ⟨l, ev, [], by simp, oa, oe, by rw [h0, h]⟩
-    · rintro ⟨pre, ev', post, hl', oa, oe, hx⟩
-      rcases List.eq_nil_or_concat post with hp | ⟨post', x, hp⟩
-      · subst hp
-        have : l = pre ∧ ev = ev' := by
-          have := List.append_inj' hl' rfl
-          exact ⟨this.1, by simpa using this.2⟩
-        obtain ⟨rfl, rfl⟩ := this
-        rw [keyState_append_one]
-        simp only [keyStep, hx]
-        simp
-      · subst hp
-        have hl2 : l ++ [ev] = (pre ++ ev' :: post') ++ [x] := by simp [hl']
-        have : l = pre ++ ev' :: post' := (List.append_inj' hl2 rfl).1
-        have hamb : (keyState l).2 = true := ih.mpr ⟨pre, ev', post', this, oa, oe, hx⟩
-        have := keyState_amb_mono l [ev] hamb
-        exact this
+        · rename_i htie
+          have hom : om = ev.m := by simpa using htie
+          simp only [Option.some.injEq, Prod.mk.injEq] at h
+          obtain ⟨_, _, rfl⟩ := h
+          simp only [htie, if_true]
+          subst hom
+          simp; omega
+        · rename_i htie
+          have hom : om ≠ ev.m := by simpa using htie
+          simp only [Option.some.injEq, Prod.mk.injEq] at h
+          obtain ⟨_, _, rfl⟩ := h
+          have htie' : (om == ev.m) = false := by simpa using hom
+          simp only [htie', Bool.false_eq_true, if_false]
+          have hz : cntM l ev.m = 0 := cntM_zero_of_lt l ev.m (fun ev' hev' => by have := hmax ev' hev'; omega)
+          simp [hz]
 
-/-- no two offers with the same number of matches ⇒ never marked -/
-theorem keyState_noties (l : List Ev) (h : l.Pairwise (fun a b => a.m ≠ b.m)) : (keyState l).2 = false := by
+/-- a key whose best offer is unique is not marked -/
+theorem keyState_flag_false_of_unique (l : List Ev) (ai e m : Nat) (h : (keyState l).1 = some (ai, e, m))
+    (hu : cntM l m = 1) : (keyState l).2 = false := by
   cases hb : (keyState l).2 with
   | false => rfl
-  | true =>
-    exfalso
-    obtain ⟨pre, ev, post, hl', oa, oe, hx⟩ := (keyState_amb_iff l).mp hb
-    obtain ⟨ev0, hm0, _, _, hm⟩ := keyState_mem pre oa oe ev.m hx
-    subst hl'
-    rw [List.pairwise_append] at h
-    exact h.2.2 ev0 hm0 ev (by simp) hm
+  | true => have := (keyState_amb_iff l ai e m h).mp hb; omega
 
 end Cutadapt.Index
